@@ -449,6 +449,17 @@ impl Parser {
             }
         };
 
+        // The body is pasted into the generated code as `{ let lex = lex; body }`: anything
+        // that is not an expression or the contents of a block (`|lex| = 3`, `|lex| { let }`)
+        // would make the whole derive output unparsable instead of producing a diagnostic.
+        if syn::parse2::<syn::Block>(quote!({ #body })).is_err() {
+            self.err(
+                "Expected the body of an inline callback to be an expression or a block",
+                span,
+            );
+            return None;
+        }
+
         let inline = InlineCallback { arg, body, span };
 
         Some(inline.into())
